@@ -24,6 +24,7 @@ def rule_G1(ctx):
                            "everywhere (no one-sided comparison against a subset)")
     prog = ctx.prog
     abended = frozenset(prog.fold_name("statuses", "ABENDED_STATUSES"))
+    active = frozenset(prog.fold_name("statuses", "ACTIVE_STATUSES"))
     cats = {}
     for name in ("ALL_STATUSES", "STARTING_STATUSES", "RUNNING_STATUSES", "ACTIVE_STATUSES",
                  "PAUSE_STATUSES", "CANCEL_STATUSES", "ABENDED_STATUSES", "COMPLETED_STATUSES"):
@@ -35,7 +36,9 @@ def rule_G1(ctx):
                 if not (isinstance(n, ast.Compare) and len(n.ops) == 1):
                     continue
                 lhs = unparse(n.left)
-                is_item = ("item" in lhs and "status" in lhs) or lhs in ("x",) and _in_items_lambda(n)
+                is_item = ("item" in lhs and "status" in lhs) or (
+                    lhs in ("x",) and _in_items_lambda(n)) or (
+                    lhs.replace('"', "'") == "x[1]['status']" and _in_items_lambda(n, "all_items"))
                 if not is_item:
                     continue
                 try:
@@ -49,7 +52,14 @@ def rule_G1(ctx):
                 else:
                     continue
                 inst = (f.qualname, norm_src(n))
-                if rset & abended and not abended <= rset:
+                if rset & active and not active <= rset:
+                    res.violated(inst, Finding(
+                        "G1", f.file, f.qualname, norm_src(n),
+                        "an item status is compared with %s, which cuts across ACTIVE_STATUSES "
+                        "%s: items that are %s (still at the provider) are not counted as in "
+                        "flight here, unlike in the sibling sites" % (
+                            sorted(rset), sorted(active), sorted(active - rset)), line=n.lineno))
+                elif rset & abended and not abended <= rset:
                     res.violated(inst, Finding(
                         "G1", f.file, f.qualname, norm_src(n),
                         "an item status is compared with %s, a strict subset of ABENDED_STATUSES "
@@ -61,14 +71,14 @@ def rule_G1(ctx):
     return res
 
 
-def _in_items_lambda(n):
+def _in_items_lambda(n, over="items_status"):
     p = getattr(n, "_parent", None)
     while p is not None and not isinstance(p, ast.Lambda):
         p = getattr(p, "_parent", None)
     if p is None:
         return False
     call = getattr(p, "_parent", None)
-    return isinstance(call, ast.Call) and len(call.args) == 2 and "items_status" in unparse(call.args[1])
+    return isinstance(call, ast.Call) and len(call.args) == 2 and over in unparse(call.args[1])
 
 
 # ====================================================================== S1b
